@@ -158,10 +158,17 @@ def imag_sign(expr, env):
 
 
 # ------------------------------------------------------------------------------------------------
-def generate(repo, pid='C01', extra_imports=(), extra_opens=(), extra=None):
-    """pid/extra: tools/gen_c02.py re-emits the same items into `Generated.C02` and appends its own"""
+def generate(repo, pid='C01', extra_imports=(), extra_opens=(), extra=None, skip=()):
+    """pid/extra/skip: tools/gen_c02.py re-emits the items IT NEEDS into `Generated.C02` and appends its own"""
     g = Gen(pid, imports=['PrysmVerif.PyPrelude', 'PrysmVerif.Model.C01'] + list(extra_imports),
             opens=['Model.C01'] + list(extra_opens))
+    if skip:
+        _item = g.item
+
+        def item(name, *a, **k):
+            if name not in skip:
+                _item(name, *a, **k)
+        g.item = item
     ft, _ = load(repo, 'prysm/fttools.py')
     pr, _ = load(repo, 'prysm/propagation.py')
 
